@@ -9,11 +9,15 @@ treated as ONE atomic event is itself proved for the fine-grained semantics
 (`c04_lock_gives_atomic_sections`: two threads `acquire; op₁ … opₙ; release` with arbitrary
 operations, every schedule the lock admits ends in one of the two serial results); what stays
 trusted is that `threading.Lock` provides mutual exclusion and that one datastore call is atomic.  Initial state, arguments: arbitrary.  SuggestTrials,
-CheckTrialEarlyStoppingState, DeleteTrial, DeleteStudy, CreateStudy and three-thread interleavings
-are decided by the exhaustive schedule exploration on the real code only (stated as partial).
+CheckTrialEarlyStoppingState, DeleteTrial, DeleteStudy, CreateStudy pairs are decided by the exhaustive
+schedule exploration on the real code only (stated as partial).  For MORE than two clients the lock-level
+statement is proved for any number of threads (`c04_lock_gives_atomic_sections_n`: the result is the
+serial execution of the sections in the order the lock was acquired); the unguarded study check in front
+of the sections is covered for pairs only.
 -/
 import VizierModel.Lemmas.ConcInst
 import VizierModel.Lemmas.ConcLock
+import VizierModel.Lemmas.ConcLockN
 
 namespace VizierModel.C04
 open VizierModel.Svc VizierModel.Conc
@@ -128,5 +132,33 @@ theorem c04_lock_gives_atomic_sections {σ κ : Type} (opsA opsB : List (σ → 
     (g'.sh, g'.a.loc, g'.b.loc) = ConcLock.serialAB opsA opsB s0 kA kB ∨
     (g'.sh, g'.a.loc, g'.b.loc) = ConcLock.serialBA opsA opsB s0 kA kB :=
   ConcLock.critical_sections_atomic opsA opsB s0 kA kB sched g' h hA hB
+
+/-- MUTUAL EXCLUSION ⇒ ATOMICITY for ANY NUMBER of concurrent clients.  `n` threads, thread `i` running
+    `acquire L; ops i …; release L` (arbitrary operations on the shared state and on its own local state —
+    request, copies read, response), scheduled step by step by an arbitrary list of thread numbers: if the
+    lock admits the schedule and every thread runs to completion, the final shared state and every thread's
+    local state are those of the SERIAL execution of the sections in some order, and that order contains
+    every thread exactly once (it is the order in which the lock was acquired). -/
+theorem c04_lock_gives_atomic_sections_n {σ κ : Type} (n : Nat) (progs : Nat → List (σ → κ → σ × κ)) (s0 : σ)
+    (locs0 : Nat → κ) (sched : List Nat) (g' : ConcLockN.GN σ κ)
+    (h : ConcLockN.runN n progs { sh := s0, holder := none, ths := fun i => ⟨0, locs0 i⟩ } sched = some g')
+    (hfin : ∀ i, i < n → (g'.ths i).pc = (progs i).length + 2) :
+    ∃ order : List Nat, order.Nodup ∧ (∀ i, i ∈ order ↔ i < n) ∧
+      g'.sh = (ConcLockN.serialN progs s0 locs0 order).1 ∧
+      ∀ i, i < n → (g'.ths i).loc = (ConcLockN.serialN progs s0 locs0 order).2 i :=
+  ConcLockN.critical_sections_atomic_n n progs s0 locs0 sched g' h hfin
+
+/-- non-vacuity: three threads, each appending its number twice to a shared log (read-modify-write through
+    the local state); the schedule lets 1 run first, then 0 and 2 alternate at the lock: admitted, all
+    finished, log = sections of 1, 0, 2 — while a schedule that moves a thread waiting for the lock is not
+    admitted -/
+example :
+    let progs : Nat → List (List Nat → Nat → List Nat × Nat) := fun i =>
+      [fun s _ => (s, s.length), fun s k => (s ++ [i * 10 + k], k), fun s k => (s ++ [i], k)]
+    let g0 : ConcLockN.GN (List Nat) Nat := { sh := [], holder := none, ths := fun _ => ⟨0, 0⟩ }
+    ((ConcLockN.runN 3 progs g0 [1, 1, 1, 1, 1, 0, 0, 0, 0, 0, 2, 2, 2, 2, 2]).map (·.sh)) = some [10, 1, 2, 0, 24, 2] ∧
+    ((ConcLockN.runN 3 progs g0 [1, 1, 0]).map (·.sh)) = none ∧
+    (ConcLockN.serialN progs [] (fun _ => 0) [1, 0, 2]).1 = [10, 1, 2, 0, 24, 2] := by
+  refine ⟨by rfl, by rfl, by rfl⟩
 
 end VizierModel.C04
